@@ -17,11 +17,17 @@ def classify(line):
 
 
 CFG = dict(
-    imports=["From Verif.Common Require Import Packet PolicyRef.", "From Verif.C30 Require Import Model Spec EndModel EndSpec."],
+    imports=["From Verif.Common Require Import Packet PolicyRef.", "From Verif.C30 Require Import Model Spec EndModel EndSpec HistModel HistSpec."],
     checker="check_all",
-    n=dict(quick=200, thorough=12000),
+    n=dict(quick=230, thorough=12000),
     shard=28,
-    rule="ENDPOINT LEVEL (kind:ep*): the real endpointManager (verif shim: newEndpointManager with a fake HNS endpoint list, "
+    rule="HISTORIES (kind:history): the real Windows IP-set cache (felix/dataplane/windows/ipsets) wired to the real PolicySets "
+         "as the dataplane wires it (every IP-set change ends in ProcessIpSetUpdate(id)); sets start missing / empty / populated / "
+         "disjoint from the rules' CIDRs, then 1-3 policies arrive (most rules use an IP set, often with CIDRs), then 3-7 further "
+         "operations in arbitrary order: AddMembers, RemoveMembers, AddOrReplaceIPSet, RemoveIPSet, AddOrReplacePolicySet, "
+         "RemovePolicySet; GetPolicySetRules observed after EVERY step, compared with the model (up to the order of an address "
+         "list: the cache is a Go map) and evaluated against PolicyRef for the CURRENT policies and CURRENT set contents.  "
+         "ENDPOINT LEVEL (kind:ep*): the real endpointManager (verif shim: newEndpointManager with a fake HNS endpoint list, "
          "OnUpdate(WorkloadEndpointUpdate), CompleteDeferredWork, applied rules read from activeWlACLPolicies) behind the real "
          "policyManager and PolicySets: 0-3 tiers (tier-a, tier-b, default; default action Deny/Pass; 1-2 policies each listed for "
          "ingress and/or egress, Pass rules frequent in non-last tiers), 0-2 profiles, host addresses; both directions compared "
@@ -74,7 +80,8 @@ MANIFEST = dict(
          "intersection, the services short-circuit, pass / end-of-tier), rules sharing a priority share an action and the "
          "verdict is invariant under reordering; at endpoint level the final flattened list (flattenTiers, combineRules, "
          "rewritePriorities, host rules) evaluated by priority gives PolicyRef.endpoint_verdict for both directions "
-         "(c30_endpoint_same_verdict_partial); plus a correspondence run of the model and of the spec oracle against the "
+         "(c30_endpoint_same_verdict_partial); over histories of policy-set and IP-set operations the cached rules always equal "
+         "the rules computed fresh from the current policies and sets (c30_history_independent); plus a correspondence run of the model and of the spec oracle against the "
          "real Go code on generated policies, tier layouts, IP sets and connections.",
     note="Trusted: Coq kernel; hand-written model tied to the code only by the correspondence run; stated HNS evaluation "
          "semantics; PolicyRef reference semantics; Go driver.",
